@@ -840,7 +840,10 @@ def check(prog: Program, L, pid: str) -> None:
                         f"call once, then {how}, then call again: the result is the one for the old `{dep}`", s.guard)
         else:
             L.ok("M", f"{s.construct}:transparent", where)
-            L.extra.setdefault("rule_M_transparent_sites", []).append(s.construct)
+            if not s.guard.startswith("@"):
+                # (a decorator cache hands out one shared object: what other rules say about it — aliasing of the cached
+                # result — is about the code, so only attribute-guard memos count here)
+                L.extra.setdefault("rule_M_transparent_sites", []).append(s.construct)
     L.ok("M", f"path:{len(reached)}-functions:{n}-memo-sites:control-ok", "")
     L.extra["rule_M_path_functions"] = len(reached)
     return lambda: L.floor(f"functions on the path of rule M ({what})", len(reached), PATH_FLOORS.get(pid, 1))
